@@ -100,3 +100,33 @@ func init() {
 		}
 	}
 }
+
+func init() {
+	extraCmds["cancelstress"] = func(in string) {
+		f, _ := os.ReadFile(in)
+		var c Case
+		if err := json.Unmarshal(f, &c); err != nil {
+			panic(err)
+		}
+		c.Procs = 2
+		kinds, clean := countEvents(&c)
+		fmt.Println("events", len(kinds), "clean", clean.Kind, len(clean.Series))
+		bad := 0
+		for try := 0; try < 3000; try++ {
+			k := 1 + try%len(kinds)
+			res, hung, _, _, fired := cancelOnce(&c, k, cancelBlock)
+			if hung || !fired {
+				continue
+			}
+			if res.Kind != "err" {
+				if df := Diff(res, clean); df != "" {
+					bad++
+					if bad < 4 {
+						fmt.Println("PARTIAL SUCCESS at k=", k, df)
+					}
+				}
+			}
+		}
+		fmt.Println("partial successes:", bad)
+	}
+}
